@@ -240,6 +240,9 @@ def run(F, rep, tier):
                 if e[0] == "mcall":
                     if e[2] not in INJECTIVE:
                         chain_bad.append(e[2])
+                    elif e[2] in ("trim_start_matches", "strip_prefix", "trim_start_matches") and not (e[4] and is_node(e[4][0]) and e[4][0][0] == "str"):
+                        # only a fixed prefix STRING may be stripped: a character set / slice / closure pattern keeps eating into the name (`c1`, `h1`, `m1` all become `1`)
+                        chain_bad.append("%s(%s)" % (e[2], "char-set" if e[4] else ""))
                     chain(e[1], depth + 1)
                 elif e[0] in ("ref", "paren", "try"):
                     chain(e[2] if e[0] == "ref" else e[1], depth + 1)
